@@ -57,14 +57,9 @@ RULE = ('histories over the name lattice /a, /a/b, /a/b/c, /x (with/without impl
         'the rewritten buffer now spells gets exactly its own packets} (2 rotating modes per kind in quick, all 5 and three name depths '
         'in thorough); EVERY well-formed targeted pattern above with its Interests expressed through caller-owned buffers and a rewrite '
         'behind one of its events (two rotating points + all points at once in quick, every point in thorough); random well-formed and '
-        'deferred-await histories with a random representation per Interest and 1-3 rewrites (400 / 5000 per front-end). NOT JUDGED '
-        '(run, counted as <fe>.buffers.open-shape.*, reported in the notes; VERIF_C03_JUDGE_OPEN=1 judges them): the two shapes on which '
-        'the UNCHANGED library fails - genuine defects found by this family, decision pending - (a) an Interest with an implicit digest '
-        'whose digest component lies in a caller-owned buffer that is rewritten while it is pending (express_raw_interest keeps a view of '
-        'the caller\'s memory as the digest to compare: matching Data / Nack no longer delivered), (b) an Interest whose name components lie '
-        'in a caller-owned buffer rewritten while it is pending and which then ends by its own timeout / cancellation (_wait_for_data '
-        'looks its node up under the caller\'s component list: an empty node stays in the table); every Interest answered by Data or '
-        'Nack or ended by a shutdown after the rewrite IS judged. non-trivial = at least one Interest and more than two events')
+        'deferred-await histories with a random representation per Interest and 1-3 rewrites (400 / 5000 per front-end). Two shapes of this family exposed genuine aliasing defects of the library (the implicit digest kept as a view of the caller\'s '
+        'memory; the table node looked up under the caller\'s component list at timeout / cancel), repaired by fix: 2146f96 and judged like '
+        'everything else since (VERIF_C03_JUDGE_OPEN=0 restores the pre-fix split into judged / counted). non-trivial = at least one Interest and more than two events')
 ASSUMPTIONS = ['asyncio (CPython 3.12: Future, Task.cancel, wait_for/timeouts.Timeout, FIFO ready queue) is the event '
                'alphabet of the model; the three tie modes are the linearisations a loop turn permits',
                'validators are harness coroutines that answer at once or wait on a harness future; validators raising '
@@ -151,8 +146,7 @@ def run(ctx):
                 bad = ctx.stats.get(f'{fe}.buffers.open-shape.{shape}.oracle-fails', 0)
                 ctx.notes.append(f'{fe}: {k} histories of the shape {shape} (caller-owned name buffer rewritten while the Interest '
                                  f'is pending, docs/C03.md "Caller-owned name buffers") were run but NOT judged and not compared with '
-                                 f'the model: the unchanged library fails the specification oracle on {bad} of them (genuine defect '
-                                 f'reported, decision pending; VERIF_C03_JUDGE_OPEN=1 judges them)')
+                                 f'the model (VERIF_C03_JUDGE_OPEN=0): the oracle fails on {bad} of them')
     for fe in ('v2', 'v1'):
         k = ctx.stats.get(f'{fe}.deferred-await.not-judged', 0)
         if k:
